@@ -95,30 +95,15 @@ def ArgvAgrees (m : Msg) (sep : Byte) : Prop :=
   | none => (m.argv sep).2 = .err .MissingData ∧ (m.argv sep).1.flat = m.flat
   | some (n, d') => (m.argv sep).2 = .ok n ∧ (m.argv sep).1.flat = d'
 
-/-- full statement for `mpt_message_argv` — NOT a theorem: see `argv_counterexample` -/
-def argv_flat_statement : Prop := ∀ (m : Msg) (sep : Byte), ArgvAgrees m sep
-
-/-- proved for every cursor and separator outside the keyed region of the known finding
-    `quote-open-at-base-end` (`Msg.quoteSplit`: white-space separator, the quote scanner reaches the end
-    of the base fragment inside a quote or behind a backslash, and bytes follow in the continuation).
-    In particular: every separator that is 0 or a visible character, and every fragment list whose
-    base fragment closes its quotes. -/
-theorem argv_flat_partial (m : Msg) (sep : Byte) (h : m.quoteSplit sep = false) : ArgvAgrees m sep :=
-  argv_eq m sep h
-example : (Msg.mk [32] [[], [32, 97], [98, 32, 99]]).quoteSplit 32 = false ∧
-    ((Msg.mk [32] [[], [32, 97], [98, 32, 99]]).argv 32).2 = .ok 2 := by decide
-
-/-- the region is not empty and the code really differs there: 'a | b' (quoted, cut after `a`) -/
-theorem argv_counterexample : ¬ argv_flat_statement := by
-  intro h
-  have h1 := h ⟨[39, 97], [[32, 98, 39]]⟩ 32
-  have hs : Flat.argv (Msg.mk [39, 97] [[32, 98, 39]]).flat 32 = some (5, [39, 97, 32, 98, 39]) := by decide
-  have hm : ((Msg.mk [39, 97] [[32, 98, 39]]).argv 32).2 = .ok 2 := by decide
-  unfold ArgvAgrees at h1
-  rw [hs] at h1
-  simp only [] at h1
-  rw [hm] at h1
-  exact absurd h1.1 (by decide)
+/-- `mpt_message_argv` for EVERY cursor and EVERY separator (0, visible characters, white space with
+    quotes and backslashes): after fix 3186d50 the quote scanner keeps its state from the base fragment
+    into the continuation, so the former keyed region `quote-open-at-base-end` is gone. -/
+theorem argv_flat (m : Msg) (sep : Byte) : ArgvAgrees m sep :=
+  argv_eq m sep
+example : ((Msg.mk [32] [[], [32, 97], [98, 32, 99]]).argv 32).2 = .ok 2 := by decide
+/-- the former counterexample: 'a | b' quoted, cut after `a` -/
+example : ((Msg.mk [39, 97] [[32, 98, 39]]).argv 32).2 = .ok 5 ∧
+    Flat.argv [39, 97, 32, 98, 39] 32 = some (5, [39, 97, 32, 98, 39]) := by decide
 
 /-- `mpt_array_message` agrees with the contiguous computation (number of arguments, array content) -/
 def ArgsAgrees (m : Msg) (sep : Byte) : Prop :=
@@ -126,24 +111,11 @@ def ArgsAgrees (m : Msg) (sep : Byte) : Prop :=
     | some r => .ok r
     | none => .fault
 
-/-- full statement for `mpt_array_message` — NOT a theorem: see `args_counterexample` -/
-def args_flat_statement : Prop := ∀ (m : Msg) (sep : Byte), ArgsAgrees m sep
-
-/-- proved whenever no `mpt_message_argv` call of the loop falls into the keyed region -/
-theorem args_flat_partial (m : Msg) (sep : Byte) (h : Msg.argsSplit sep (m.length + 1) m = false) :
-    ArgsAgrees m sep :=
-  arrayMessage_eq m sep h
-example : Msg.argsSplit 32 6 ⟨[97, 32], [[], [98, 99], [32]]⟩ = false ∧
-    (Msg.mk [97, 32] [[], [98, 99], [32]]).arrayMessage 32 = .ok (2, [97, 0, 98, 99, 0]) := by decide
-
-theorem args_counterexample : ¬ args_flat_statement := by
-  intro h
-  have h1 := h ⟨[39, 97], [[32, 98, 39]]⟩ 32
-  have hs : Flat.args (Msg.mk [39, 97] [[32, 98, 39]]).flat 32 = some (1, [39, 97, 32, 98, 39, 0]) := by decide
-  have hm : (Msg.mk [39, 97] [[32, 98, 39]]).arrayMessage 32 = .ok (2, [39, 97, 0, 98, 39, 0]) := by decide
-  unfold ArgsAgrees at h1
-  rw [hs, hm] at h1
-  exact absurd h1 (by decide)
+/-- `mpt_array_message` for every cursor and separator -/
+theorem args_flat (m : Msg) (sep : Byte) : ArgsAgrees m sep :=
+  arrayMessage_eq m sep
+example : (Msg.mk [97, 32] [[], [98, 99], [32]]).arrayMessage 32 = .ok (2, [97, 0, 98, 99, 0]) ∧
+    (Msg.mk [39, 97] [[32, 98, 39]]).arrayMessage 32 = .ok (1, [39, 97, 32, 98, 39, 0]) := by decide
 
 /-- the contiguous argument loop never runs out of its fuel (so `.fault` above cannot occur) -/
 theorem args_spec_total (d : List Byte) (sep : Byte) : (Flat.args d sep).isSome = true :=
